@@ -58,6 +58,31 @@ def expand(case):
     return case["prog"]
 
 
+def x_twin(ctx, case):
+    """Two instances of ONE TestCase class with different exception_handlers: each follows its own
+    table (nothing resolved for the first may be reused for the second)."""
+    program = expand(case)
+    env = programs.Env(program)
+    first = programs.build_case(program, env)
+    log = recorders.Log()
+    programs.execute(program, lambda: recorders.ExtRecorder(log), env=env, case=first)
+    env.reset_for_rerun()
+    second = type(first)("test")
+    for exc_name, report, position in case["twin_handlers"]:
+        programs._insert_handler(env, second, exc_name, report, position)
+    log2 = recorders.Log()
+    programs.execute(program, lambda: recorders.ExtRecorder(log2), env=env, case=second)
+    names = [n for n in log2.names() if n in recorders.OUTCOMES]
+    raised = list(env.raised)
+    if len(names) != 1 or len(raised) != 1:
+        return False
+    want = programs.expected_outcome(raised[0][2], second, env) or "addError"
+    ctx.check(names[0] == want, "single.outcome-is-mapped-one",
+              lambda: {"twin": True, "got": names[0], "want": want, "first instance handlers": program.get("handlers"),
+                       "second instance handlers": case["twin_handlers"], "raised": raised[0][:2]})
+    return True
+
+
 def x_prog(ctx, case):
     program = expand(case)
     log = recorders.Log()
@@ -138,7 +163,7 @@ def x_prog(ctx, case):
     return True
 
 
-SUBCHECKS = {"prog": x_prog}
+SUBCHECKS = {"prog": x_prog, "twin": x_twin}
 
 FEATURES = ("own_exc", "expect", "force", "decor", "noupcall", "nested_cleanup", "handlers", "late_handler",
             "truthy_return")
@@ -220,6 +245,18 @@ def run(ctx):
                                                  "extra": {"handlers": [[exc, report, pos]]}})
     ctx.note_space("one user handler (5 reports x 4 positions x 3 classes) x 3 raised custom classes "
                    "x {alone, + failure, + skip, + error}", n)
+    n = 0
+    for r1 in ["skip", "failure", "error", "xfail", "uxs"]:
+        for r2 in [None, "skip", "failure", "error"]:
+            for exc in ["CustomA", "CustomB", "CustomC"]:
+                for stage in ("test", "c1"):
+                    if ctx.mine():
+                        n += 1
+                        ctx.execute("twin", {"placed": [[stage, "custom:" + exc]],
+                                             "extra": {"handlers": [[exc, r1, 0]]},
+                                             "twin_handlers": [[exc, r2, 0]] if r2 else []})
+    ctx.note_space("two instances of one class: first with a handler (5 reports), second with another "
+                   "handler or none, 3 classes x 2 stages", n)
     ctx.notes["random_cases"] = True
     for i in range(ctx.scale(2500, 250000)):
         if ctx.out_of_time():
